@@ -12,7 +12,7 @@ import (
 // ---------- corpora ----------
 
 var tokenAlphabet = []string{"(", ")", "{", "}", ",", "_", "==", "!=", "in", "not", "is", "empty", "contains", "matches", "and", "or", "any", "all", "as",
-	"a", "b", "x.y", `a["k"]`, "a.0", `"/p/q"`, `"/p~1q~0"`, "1", "-1.5", "01", `"s t"`, "`r`", `"`, "[", "]", ".", "/", `"\x41é"`, `""`, "é", "a/b"}
+	"a", "b", "x.y", `a["k"]`, "a.0", `"/p/q"`, `"/p~1q~0"`, `"/a~01b"`, "1", "-1.5", "01", `"s t"`, "`r`", `"`, "[", "]", ".", "/", `"\x41é"`, `""`, "é", "a/b"}
 
 var handCorpus = []string{"a==1", "a == 1", "a == 1 and b == 2", "not a == 1", "(a==1)", "((a==1))", "(((a==1)))", "a", "", "any a as x { x == 1 }",
 	"all a as i, v { v == 1 and i != 0 }", "any m as _, v { v.x == 1 }", "all m as k, _ { k matches `^a` }", "( any a as x { x == 1 } ) and b == 2",
@@ -25,7 +25,7 @@ var handCorpus = []string{"a==1", "a == 1", "a == 1 and b == 2", "not a == 1", "
 	"a == \x00", "a == \"\x00\"", "a == `\x00`", "a == \"unterminated", "a == `unterminated", "a[\"k\"", "a[`k`]", "a[ \"k\" ]", "a.b[", "a == 1 and", "and", "or a == 1", "a == 1 or",
 	"any a as { x == 1 }", "any a as x, { x == 1 }", "any a as x, y, z { x == 1 }", "all a as _, _ { a == 1 }", "any a as x { }", "any a as x {", "any a as x { x == 1", "any as x { x == 1 }",
 	"a == 1 ) ", "( a == 1", "()", "( )", "not ( a == 1 )", "not\ta == 1", "a  is   not    empty", "a is  empty", "a isempty", "a is notempty", "\"/a\" is empty", "\"/\" == 1", "\"//\" == 1",
-	"a == \"/p~2\"", "\"/p~2\" == 1", "\"/p~\" == 1", "a matches b", "a not matches `[`", "1 == 1", "-1 in a", "1.5 not in a", "`raw` in a", "\"q\" not in a", "a == b.c[\"d\"]", "a == \"\\u00e9\"",
+	"a == \"/p~2\"", "\"/p~2\" == 1", "\"/p~\" == 1", "\"/a~01b\" == 1", "\"/~0~1~01~10\" is empty", "a == \"/x~01\"", "a matches b", "a not matches `[`", "1 == 1", "-1 in a", "1.5 not in a", "`raw` in a", "\"q\" not in a", "a == b.c[\"d\"]", "a == \"\\u00e9\"",
 	"a==1 and b==2 and c==3", "a==1 or b==2 or c==3", "a==1 and b==2 or c==3 and d==4", "not a==1 and not b==2", "(a==1 or b==2) and c==3", "a==1 and (b==2 or c==3)",
 	strings.Repeat("(", 6) + "a==1" + strings.Repeat(")", 6), strings.Repeat("not ", 5) + "a==1", "a == " + strings.Repeat("9", 40), "a == 1.", "a == .5", "a == -", "a == 1e3", "a == +1"}
 
